@@ -55,6 +55,8 @@ type c27Input struct {
 	utxo         *bitcoin.UnspentTransactionOutput
 	pkScript     []byte
 	redeemScript []byte
+	value        int64
+	funding      int // which generated previous transaction holds the output
 }
 
 func (in *c27Input) witness() bool { return in.kind == "P2WPKH" || in.kind == "P2WSH" }
@@ -157,7 +159,7 @@ func c27GenScenario(t *rapid.T) *c27Scenario {
 		kinds = rapid.Permutation(kinds).Draw(t, "order")
 	}
 
-	for i, kind := range kinds {
+	for _, kind := range kinds {
 		in := &c27Input{kind: kind}
 		switch kind {
 		case "P2PKH":
@@ -189,33 +191,70 @@ func c27GenScenario(t *rapid.T) *c27Scenario {
 				in.pkScript = c27P2WSH(sha256.Sum256(script))
 			}
 		}
-		// the previous transaction: the spent output sits at a drawn index
-		value := c27GenValue(t, "utxoValue")
-		index := rapid.IntRange(0, 3).Draw(t, "outputIndex")
+		in.value = c27GenValue(t, "utxoValue")
+		sc.inputs = append(sc.inputs, in)
+	}
+
+	// Funding transactions: several inputs may spend different outputs of the
+	// same previous transaction (two deposits funded by one Bitcoin
+	// transaction, a deposit funded together with the wallet's change, ...).
+	sharing := rapid.SampledFrom([]string{"some", "none", "some", "all"}).Draw(t, "fundingSharing")
+	var groups [][]int
+	for i := range sc.inputs {
+		join := false
+		switch sharing {
+		case "all":
+			join = i > 0
+		case "some":
+			join = i > 0 && rapid.Bool().Draw(t, "joinFunding")
+		}
+		if join {
+			g := rapid.IntRange(0, len(groups)-1).Draw(t, "fundingTx")
+			groups[g] = append(groups[g], i)
+		} else {
+			groups = append(groups, []int{i})
+		}
+	}
+	for g, members := range groups {
 		prev := &bitcoin.Transaction{
 			Version:  1,
-			Locktime: uint32(i + 1), // makes the previous transactions distinct
+			Locktime: uint32(g + 1), // makes the previous transactions distinct
 			Inputs: []*bitcoin.TransactionInput{{
-				Outpoint: &bitcoin.TransactionOutpoint{OutputIndex: uint32(i)},
+				Outpoint: &bitcoin.TransactionOutpoint{OutputIndex: uint32(g)},
 				Sequence: 0xffffffff,
 			}},
 		}
 		copy(prev.Inputs[0].Outpoint.TransactionHash[:], rapid.SliceOfN(rapid.Byte(), 32, 32).Draw(t, "prevPrev"))
-		for k := 0; k <= index; k++ {
-			if k == index {
-				prev.Outputs = append(prev.Outputs, &bitcoin.TransactionOutput{Value: value, PublicKeyScript: in.pkScript})
-			} else {
-				// decoys of the other script families in front of the spent output
-				prev.Outputs = append(prev.Outputs, &bitcoin.TransactionOutput{Value: value + 1, PublicKeyScript: c27GenOutputScript(t)})
+		// the spent outputs sit at drawn positions among decoy outputs of the
+		// other script families
+		nOutputs := len(members) + rapid.IntRange(0, 3).Draw(t, "decoys")
+		slots := make([]int, nOutputs)
+		for k := range slots {
+			slots[k] = k
+		}
+		if nOutputs > 1 {
+			slots = rapid.Permutation(slots).Draw(t, "outputSlots")
+		}
+		prev.Outputs = make([]*bitcoin.TransactionOutput, nOutputs)
+		for k, m := range members {
+			in := sc.inputs[m]
+			prev.Outputs[slots[k]] = &bitcoin.TransactionOutput{Value: in.value, PublicKeyScript: in.pkScript}
+		}
+		for k := range prev.Outputs {
+			if prev.Outputs[k] == nil {
+				prev.Outputs[k] = &bitcoin.TransactionOutput{Value: c27GenValue(t, "decoyValue"), PublicKeyScript: c27GenOutputScript(t)}
 			}
 		}
 		hash := prev.Hash()
 		sc.chain.txs[hash] = prev
-		in.utxo = &bitcoin.UnspentTransactionOutput{
-			Outpoint: &bitcoin.TransactionOutpoint{TransactionHash: hash, OutputIndex: uint32(index)},
-			Value:    value,
+		for k, m := range members {
+			in := sc.inputs[m]
+			in.funding = g
+			in.utxo = &bitcoin.UnspentTransactionOutput{
+				Outpoint: &bitcoin.TransactionOutpoint{TransactionHash: hash, OutputIndex: uint32(slots[k])},
+				Value:    in.value,
+			}
 		}
-		sc.inputs = append(sc.inputs, in)
 	}
 
 	nOut := rapid.IntRange(1, 4).Draw(t, "outputs")
@@ -231,7 +270,7 @@ func c27GenScenario(t *rapid.T) *c27Scenario {
 func (sc *c27Scenario) render() string {
 	var parts []string
 	for _, in := range sc.inputs {
-		s := fmt.Sprintf("%s:%d@%d", in.kind, in.utxo.Value, in.utxo.Outpoint.OutputIndex)
+		s := fmt.Sprintf("%s:%d@f%d.%d", in.kind, in.utxo.Value, in.funding, in.utxo.Outpoint.OutputIndex)
 		if len(in.redeemScript) > 0 {
 			s += fmt.Sprintf("/rs%d", len(in.redeemScript))
 		}
@@ -310,6 +349,31 @@ func c27Labels(sc *c27Scenario, sigHashes []*big.Int) (mixed bool, labels []stri
 		}
 	}
 	mixed = w > 0 && l > 0
+	// inputs spending different outputs of one funding transaction
+	shared, sharedOtherKind, sharedOtherClass := false, false, false
+	for i, a := range sc.inputs {
+		for _, b := range sc.inputs[i+1:] {
+			if a.funding == b.funding {
+				shared = true
+				if a.kind != b.kind {
+					sharedOtherKind = true
+				}
+				if a.witness() != b.witness() {
+					sharedOtherClass = true
+				}
+			}
+		}
+	}
+	switch {
+	case sharedOtherClass:
+		labels = append(labels, "funding:shared-witness-and-legacy-outputs")
+	case sharedOtherKind:
+		labels = append(labels, "funding:shared-different-kinds")
+	case shared:
+		labels = append(labels, "funding:shared-same-kind")
+	default:
+		labels = append(labels, "funding:separate")
+	}
 	labels = append(labels, fmt.Sprintf("mixed-witness-legacy:%v", mixed), fmt.Sprintf("inputs:%d", len(sc.inputs)))
 	for _, h := range sigHashes {
 		if h.BitLen() <= 248 {
